@@ -44,7 +44,9 @@ fn gen_start(rng: &mut Rng, focus: &str) -> Start {
             }
         }
         _ => {
-            if pick < 35 {
+            if pick < 5 {
+                Start::ValidBig { gen: even_gen(rng), base, size: *rng.pick(&[73u32, 80, 400, 4096, 65536]) }
+            } else if pick < 35 {
                 Start::Valid { gen: even_gen(rng), base }
             } else if pick < 60 {
                 Start::ValidOdd { gen: even_gen(rng).wrapping_add(1), base, words: rng.below(8) as usize }
@@ -285,6 +287,8 @@ fn enum_starts() -> Vec<Start> {
         Start::Valid { gen: 40000, base: 777 },
         Start::Valid { gen: 65534, base: 32767 },
         Start::Valid { gen: 65532, base: 9 },
+        Start::ValidBig { gen: 8, base: 40, size: 80 },
+        Start::ValidBig { gen: 65534, base: 41, size: 4096 },
         Start::ValidOdd { gen: 1, base: 0, words: 3 },
         Start::ValidOdd { gen: 65535, base: 500, words: 7 },
         Start::ValidOdd { gen: 12345, base: 500, words: 0 },
@@ -370,6 +374,7 @@ fn mode_c11sweep(args: &std::collections::HashMap<String, String>) -> Value {
     let path = dir.join("sweep");
     let mut violations: Vec<Value> = Vec::new();
     let mut evaluations = 0u64;
+    let mut republished = 0u64;
     let mut observations = 0u64;
     let mut parities: BTreeMap<String, u64> = BTreeMap::new();
     let mut samples = Vec::new();
@@ -403,7 +408,7 @@ fn mode_c11sweep(args: &std::collections::HashMap<String, String>) -> Value {
         set_handler(None);
         let after = read_gen(&file);
         evaluations += 1;
-        let seen = seen.borrow();
+        let seen = seen.borrow().clone();
         observations += seen.len() as u64;
         let mut bad: Vec<String> = Vec::new();
         let mut word_points = 0;
@@ -444,6 +449,30 @@ fn mode_c11sweep(args: &std::collections::HashMap<String, String>) -> Value {
                 }
             }
         }
+        // The same record published again from the same start value (the daemon republishes an
+        // unchanged record every second while chronyd is unsynchronised).
+        {
+            file.write_at(&g0v.to_ne_bytes(), 14).unwrap();
+            let zero_seen = std::rc::Rc::new(std::cell::Cell::new(false));
+            {
+                let z = zero_seen.clone();
+                let f = file.try_clone().unwrap();
+                set_handler(Some(Box::new(move |_p: &Point| {
+                    let mut b = [0u8; 2];
+                    f.read_at(&mut b, 14).unwrap();
+                    if u16::from_ne_bytes(b) == 0 {
+                        z.set(true);
+                    }
+                })));
+            }
+            writer.write(&rec);
+            set_handler(None);
+            let after2 = read_gen(&file);
+            republished += 1;
+            if after2 & 1 == 1 || after2 == 0 || after2 == g0v || (zero_seen.get() && g0v != 0) {
+                bad.push(format!("republishing the same record from generation {}: generation {} afterwards{}", g0v, after2, if zero_seen.get() { ", 0 seen on the way" } else { "" }));
+            }
+        }
         if !bad.is_empty() && violations.len() < 20 {
             let rp = format!("{}/C11-sweep-{}.json", replay_dir, g0v);
             vworld::write_json(&rp, &json!({"property":"C11","engine":"c11sweep","g0":g0v,"violations":bad,"observed":seen.iter().map(|s| json!([s.0, s.1, s.2])).collect::<Vec<_>>(),"after":after}));
@@ -458,7 +487,8 @@ fn mode_c11sweep(args: &std::collections::HashMap<String, String>) -> Value {
         file.write_at(&65000u16.to_ne_bytes(), 14).unwrap();
         let mut prev = 65000u16;
         for i in 0..chain {
-            writer.write(&encode(100 + i));
+            // every record is published twice in a row
+            writer.write(&encode(100 + i / 2));
             let g = read_gen(&file);
             chain_steps += 1;
             if g < prev {
@@ -474,7 +504,7 @@ fn mode_c11sweep(args: &std::collections::HashMap<String, String>) -> Value {
     }
     drop(writer);
     let _ = std::fs::remove_dir_all(&dir);
-    json!({"evaluations": evaluations, "observations": observations, "classes": parities, "chain_steps": chain_steps, "wrap_crossings": wraps, "violations": violations, "samples": samples})
+    json!({"evaluations": evaluations, "republished": republished, "observations": observations, "classes": parities, "chain_steps": chain_steps, "wrap_crossings": wraps, "violations": violations, "samples": samples})
 }
 
 /// C03: long sequential histories — readers that sleep through many publications, the wrap.
